@@ -323,6 +323,9 @@ class Interp:
         if k == "repeat":
             v = self.operand(rv["op"])
             n = int(re.sub(r"_\w+$", "", rv["n"]))
+            if isinstance(v, (list, dict)):
+                import copy
+                return [copy.deepcopy(v) for _ in range(n)]        # `[[0; 4]; 256]`: 256 arrays, not one array 256 times
             return [v] * n
         raise Undecidable("rvalue %s" % k)
 
@@ -451,6 +454,19 @@ class Interp:
             v = self.deref_arg(args[0])
             if isinstance(v, list):
                 return len(v)
+        if re.search(r"slice::<impl \[T\]>::get$", c) and len(args) == 2:
+            v, i = self.deref_arg(args[0]), self.deref_arg(args[1])
+            if isinstance(v, list) and isinstance(i, int):
+                if 0 <= i < len(v):
+                    return {"__adt": "core::option::Option", "__var": "Some", 0: ("refval", v[i]), "0": ("refval", v[i])}
+                return {"__adt": "core::option::Option", "__var": "None"}
+        if re.search(r"core::option::Option::<&'?\w* ?T>::(copied|cloned)$|core::option::Option::<&T>::(copied|cloned)$", c):
+            o = self.deref_arg(args[0])
+            if isinstance(o, dict) and o.get("__adt") == "core::option::Option":
+                if o.get("__var") != "Some":
+                    return o
+                val = self.deref_arg(o.get(0, o.get("0")))
+                return {"__adt": "core::option::Option", "__var": "Some", 0: val, "0": val}
         if re.search(r"core::option::Option::<T>::(unwrap_or|unwrap_or_default|unwrap|expect|is_some|is_none)$", c):
             o = self.deref_arg(args[0])
             if isinstance(o, dict) and o.get("__adt") == "core::option::Option":
